@@ -147,21 +147,22 @@ Theorem C06_query_parameter_independent_of_neighbours : forall q k,
 Proof. exact requests_params_lookup. Qed.
 Print Assumptions C06_query_parameter_independent_of_neighbours.
 
-(* ---- coverage phase: Template._serialize (path container) *)
-(* without a path style serializer the n-th case is the same function of the template as the first one ... *)
+(* ---- coverage phase: Template._serialize (path and query containers) *)
+(* for ALL parameter definitions, templates and case indices: the n-th case built from a template is the same function of the
+   template as the first one (serialize, quote, stringify); the template is never modified *)
 Theorem C06_coverage_template_pure : forall defs n tmpl,
-  ser3 defs = [] -> template_nth defs n tmpl = template_nth defs 0 tmpl.
+  template_nth defs n tmpl = path_output defs tmpl /\ template_query_nth defs n tmpl = query_output defs tmpl.
 Proof. exact coverage_pure. Qed.
 Print Assumptions C06_coverage_template_pure.
 
-(* ... and for every string and every case index it holds the quoted value, which decodes to the template value *)
+(* for every string and every case index the case holds the quoted value, which decodes to the template value *)
 Theorem C06_coverage_case_roundtrip : forall name s n out,
   template_nth [] n [(name, sval s)] = Some out ->
   exists q, out = [(name, sval q)] /\ quote_value s = Some q /\ pct_decode_form q = Some s.
 Proof. exact coverage_case_roundtrip. Qed.
 Print Assumptions C06_coverage_case_roundtrip.
 
-(* sentinel for the repaired finding C06-F9: the in-place rule re-quotes, the present rule does not *)
+(* sentinel for the repaired finding C06-F9: the quote-in-place rule re-quotes, the present rule does not *)
 Theorem C06_coverage_requote_sentinel_refuted :
   let tmpl := [([105;100], sval [97;32;98;37;99])] in
   let q1 := [97;43;98;37;50;53;99] in
@@ -174,11 +175,19 @@ Theorem C06_coverage_requote_sentinel_refuted :
 Proof. exact coverage_requote_sentinel_refuted. Qed.
 Print Assumptions C06_coverage_requote_sentinel_refuted.
 
-(* the style serializer of the path container is still re-applied to the template by every case *)
+(* sentinel for the repaired finding C06-F10: the serializer-in-place rule serializes the serialized text again
+   (path label array, query form object without explode), the present rule gives the same text in both cases *)
 Theorem C06_coverage_serializer_reapplied_refuted :
   let tmpl := [([105;100], VArr [PStr [97]; PStr [98]])] in
-  template_nth [label_arr_def] 0 tmpl = Some [([105;100], sval [46;97;37;50;67;98])]
-  /\ template_nth [label_arr_def] 1 tmpl = Some [([105;100], sval [46;46;97;37;50;67;98])]
-  /\ obind (pct_decode [46;46;97;37;50;67;98]) (dec_value (FLabelArr false) [105;100]) <> Some (CArr [[97]; [98]]).
+  let qt := [([111], VObj [([107], PStr [118])])] in
+  template_nth_ser_inplace [label_arr_def] 0 tmpl = Some [([105;100], sval [46;97;37;50;67;98])]
+  /\ template_nth_ser_inplace [label_arr_def] 1 tmpl = Some [([105;100], sval [46;46;97;37;50;67;98])]
+  /\ obind (pct_decode [46;46;97;37;50;67;98]) (dec_value (FLabelArr false) [105;100]) <> Some (CArr [[97]; [98]])
+  /\ template_nth [label_arr_def] 0 tmpl = Some [([105;100], sval [46;97;37;50;67;98])]
+  /\ template_nth [label_arr_def] 1 tmpl = Some [([105;100], sval [46;97;37;50;67;98])]
+  /\ template_query_nth_ser_inplace [form_obj_def] 0 qt = Some [([111], sval [107;44;118])]
+  /\ template_query_nth_ser_inplace [form_obj_def] 1 qt = Some [([111], sval [44;107;44;118])]
+  /\ template_query_nth [form_obj_def] 0 qt = Some [([111], sval [107;44;118])]
+  /\ template_query_nth [form_obj_def] 1 qt = Some [([111], sval [107;44;118])].
 Proof. exact coverage_serializer_reapplied_refuted. Qed.
 Print Assumptions C06_coverage_serializer_reapplied_refuted.
